@@ -10,7 +10,7 @@ META = dict(
 FINISH = dict(level="proof", trusted=pc.TRUSTED, rule='two-socket programs: connect, sends of 1..70000 bytes, reads of 0..200000, deliver-next / drop / reorder / duplicate of any emitted packet, clock steps 1 ms..16 s, shutdown/close at any point, final drain; configs: buffers 1 KiB..1 MiB, Nagle, ack delay 0..500, FIN-ACK on either side, window scaling on/off, clocks across the 2^32 wrap; non-trivial = connection reaches ESTABLISHED',
               assumptions=["clock never reports 0 (reserved by the implementation for 'use the real clock')", "MTU advice >= 296"])
 
-KINDS = "session,plain,config,wrap,zero-window,mtu,straddle,early".split(",")
+KINDS = "session,plain,config,wrap,zero-window,mtu,straddle,early,finflush,finflush".split(",")
 prebuild = pc.prebuild
 
 
